@@ -244,3 +244,134 @@ crate::harness! {
         std::mem::forget(t1);
     }
 }
+
+// ---- C01 / C08: the uncontrolled-nondeterminism checker ---------------------------------------------------
+// Recording execution: decisions pass through unchanged (C08). Replay execution fed the same calls
+// with the same arguments: never a "possible nondeterminism" panic, the recorded answers are
+// returned without consulting the inner scheduler (C01: a body whose only nondeterminism is
+// scheduling and shuttle::rand is never rejected).
+
+crate::harness! {
+    #[kani::unwind(5)]
+    fn c01_nd_checker_record_then_replay() {
+        use shuttle_schedulers::UncontrolledNondeterminismCheckScheduler;
+        let t0 = mk_task(0);
+        let t2 = mk_task(2);
+        let draw_val: u64 = kani::any();
+        unsafe { SPY = SpyRec { n: 0, first: 9, last: 9, cur: None, y: false, ret: None, asked: 0, draws: 0, execs: 0 } };
+        let mut c = UncontrolledNondeterminismCheckScheduler::new(Spy { draw_val, exec_some: true });
+        // ---- recording execution
+        let e1 = c.new_execution();
+        assert!(e1.is_some() && unsafe { SPY.execs } == 1);
+        std::mem::forget(e1);
+        let two: bool = kani::any();
+        let y: bool = kani::any();
+        let cur_some: bool = kani::any();
+        let cur = if cur_some { Some(TaskId::from(0)) } else { None };
+        let got1 = if two {
+            let r: [&Task; 2] = [&t0, &t2];
+            c.next_task(&r, cur, y)
+        } else {
+            let r: [&Task; 1] = [&t2];
+            c.next_task(&r, cur, y)
+        };
+        let rec = unsafe { SPY };
+        assert!(rec.asked == 1 && rec.n == if two { 2 } else { 1 } && rec.last == 2 && rec.y == y
+            && rec.cur == cur.map(|x| x.into()), "C08: nondeterminism checker changed the arguments while recording");
+        assert!(got1.map(|x| -> usize { x.into() }) == rec.ret, "C08: nondeterminism checker changed the answer while recording");
+        let d1 = c.next_u64();
+        assert!(d1 == draw_val && unsafe { SPY.draws } == 1, "C08: nondeterminism checker changed a draw while recording");
+        // ---- replay execution: same calls, same arguments
+        let e2 = c.new_execution();
+        assert!(e2.is_some(), "C01: nondeterminism checker did not start its replay execution");
+        assert!(unsafe { SPY.execs } == 1, "C01: replay execution consumed an iteration of the inner scheduler");
+        std::mem::forget(e2);
+        if got1.is_some() {
+            let got2 = if two {
+                let r: [&Task; 2] = [&t0, &t2];
+                c.next_task(&r, cur, y)
+            } else {
+                let r: [&Task; 1] = [&t2];
+                c.next_task(&r, cur, y)
+            };
+            assert!(got2 == got1, "C01: nondeterminism checker replays a different decision");
+            let d2 = c.next_u64();
+            assert!(d2 == d1, "C01: nondeterminism checker replays a different random value");
+            assert!(unsafe { SPY.asked } == 1 && unsafe { SPY.draws } == 1, "C01: replay consulted the inner scheduler");
+            // ---- next recording execution: the replay had the expected length, no rejection
+            let e3 = c.new_execution();
+            assert!(e3.is_some() && unsafe { SPY.execs } == 2);
+            std::mem::forget(e3);
+            kani::cover!(two, "two tasks offered");
+        }
+        kani::cover!(got1.is_none(), "recording stopped by the inner scheduler");
+        std::mem::forget(c);
+        std::mem::forget(t0);
+        std::mem::forget(t2);
+    }
+}
+
+// ---- C13: the step-bound comparison -------------------------------------------------------------------------
+
+crate::harness! {
+    #[kani::unwind(4)]
+    fn c13_step_bound_arith() {
+        use shuttle_engine::runtime::execution::ExecutionState;
+        use shuttle_engine::Config;
+        use std::cell::RefCell;
+        use std::rc::Rc;
+        // recorded schedule of 3 steps (two task steps and one random draw)
+        let mut pre = Schedule::new(0);
+        pre.push_task(TaskId::from(0));
+        pre.push_random();
+        pre.push_task(TaskId::from(0));
+        ExecutionState::verif_init_schedule(pre);
+        let sched: Rc<RefCell<dyn Scheduler>> = Rc::new(RefCell::new(crate::env::NullSched));
+        let mut st = ExecutionState::verif_new(Config::new(), sched);
+        let reset: usize = kani::any();
+        kani::assume(reset <= 3); // reset_step_count() stores the current length, which never exceeds it
+        st.steps_reset_at = reset;
+        let bound: usize = kani::any();
+        let got = st.verif_is_step_bound_exceeded(bound);
+        // steps since the last reset: scheduling decisions plus random draws
+        let steps = 3 - reset;
+        assert!(got == (steps >= bound), "C13: step bound comparison is off (must trip exactly when steps since reset reach the bound)");
+        kani::cover!(got && bound == 3, "bound reached exactly");
+        kani::cover!(!got && bound == 4, "one below the bound");
+        std::mem::forget(st);
+    }
+}
+
+
+// ---- C01(d): the data seed reported for *any* execution reproduces that execution's data stream ----------
+// (concrete construction seeds: PCG's 128-bit arithmetic on a symbolic seed does not finish)
+
+fn data_seed_reproduces(s0: u64) {
+    let mut a = RandomDataSource::initialize(s0);
+    let r1 = a.reinitialize();
+    assert!(r1 == s0, "C01: first execution does not report the construction seed");
+    let d1 = a.next_u64();
+    let _ = a.next_u64();
+    let mut b = RandomDataSource::initialize(r1);
+    assert!(b.reinitialize() == r1 && b.next_u64() == d1, "C01: reported seed does not reproduce the first execution's data stream");
+    // second and third execution of the same source
+    let r2 = a.reinitialize();
+    let d2 = a.next_u64();
+    let mut c = RandomDataSource::initialize(r2);
+    assert!(c.reinitialize() == r2, "C01: re-created data source reports a different seed");
+    assert!(c.next_u64() == d2, "C01: seed reported for the second execution does not reproduce its data stream");
+    let r3 = a.reinitialize();
+    let d3 = a.next_u64();
+    let mut d = RandomDataSource::initialize(r3);
+    assert!(d.reinitialize() == r3 && d.next_u64() == d3, "C01: seed reported for the third execution does not reproduce its data stream");
+    kani::cover!(r2 != r1, "later executions get fresh seeds");
+}
+
+crate::harness! {
+    #[kani::unwind(6)]
+    fn c01_data_seed_reproduces_each_execution() {
+        data_seed_reproduces(0);
+        data_seed_reproduces(0x1234_5678);
+        data_seed_reproduces(u64::MAX);
+    }
+}
